@@ -425,8 +425,11 @@ pub fn logs(m: &mut M, r: &mut Rng, n: u64) {
         // ln_1p
         match r.below(8) {
             0 => {
-                let j = r.range(1, 100) as i32;
-                load_sum(m, 6, -1.0, pow2(-j) * (1.0 + r.below(8) as f64 / 8.0));
+                // log-uniform distance 1 + x to the singularity x = -1, down to the least subnormal (x = (-1, lo) is a
+                // valid double-double for every such lo): ln_1p is claimed on the whole of (-1, ...)
+                let j = if r.coin() { r.range(1, 100) } else { r.range(100, 1074) } as i32;
+                let d = if j >= 1071 { pow2(-j) } else { pow2(-j) * (1.0 + r.below(8) as f64 / 8.0) };
+                load_sum(m, 6, -1.0, d);
             }
             1 => {
                 let e = r.range(-1000, -8) as i32;
